@@ -212,6 +212,35 @@ def main(rep):
                         found = True
                         break
                     validated += 1
+        # the real main() under the sanitizers with watch roots that resolve, do not resolve, are empty or repeated
+        import main_common as mc
+        margs = []
+        pool = ["/a", "/nx", "", ".", "/a/../nx", "x" * 300]
+        n = 0
+        for opt in ("-w", "-e"):
+            for a in pool:
+                margs.append(("m%d" % n, mc.main_case(args=[opt, a], real={"/a": "/a", ".": "/cwd", "/": "/"}, mounted=["/"], slots=[]), [opt, a]))
+                n += 1
+        for a in pool:
+            for b in pool[:3]:
+                margs.append(("m%d" % n, mc.main_case(args=["-w", a, "-e", b], real={"/a": "/a", ".": "/cwd", "/": "/"}, mounted=["/"], slots=[]), ["-w", a, "-e", b]))
+                n += 1
+        total += len(margs)
+        dist["main_argv"] = len(margs)
+        if not found:
+            impl, model, problems = vlib.correspond(exe_impl, exe_model, "main", [(c, t) for c, t, _ in margs], sandbox=True, shards=len(margs))
+            for cid, script, args in margs:
+                il = impl.get(cid) or []
+                if not il or not il[-1].startswith(("exit", "end")):
+                    rep.violation("memory", {"case": cid, "script": script.split("\n"), "implementation": il,
+                                             "what": "main(%s) under the sanitizers did not finish (memory error, undefined behaviour or abort) instead of processing or rejecting the command line" % args})
+                    found = True
+                    break
+                if exe_model and il != model.get(cid):
+                    rep.defer_divergence({"case": cid, "script": script.split("\n"), "implementation": il, "model": model.get(cid),
+                                          "what": "implementation and model differ on main(%s)" % args})
+                    continue
+                validated += 1
         rep.cov["input_distribution"] = dist
         rep.cov["samples"] = [groups[1][1][3][1].split("\n")[-8:]]
     rep.cov["evaluations"] = total
@@ -220,7 +249,7 @@ def main(rep):
     rep.cov["rule"] = ("harness rebuilt with -fsanitize=address,undefined (no recovery): executables named like an editor whose content is a valid ELF image, the image cut at many "
                        "offsets, every header / program-header field set to boundary values (0, sizes +-1, 2^31-1, 2^63-1, 2^63, 2^64-1), an interpreter without NUL, random "
                        "corruptions; queue directories with hand-written links (relative targets, '/', long flag prefixes, other roots, shorter than the common parent, project "
-                       "flags with wrong offsets, names with gaps / leading zeros / non-numeric) under several common-parent offsets; paths up to PATH_MAX; every argv up to length 3 (4); "
+                       "flags with wrong offsets, names with gaps / leading zeros / non-numeric) under several common-parent offsets; paths up to PATH_MAX; every argv up to length 3 (4); the real main() with watch roots that resolve, do not resolve, are empty or over-long; "
                        "any sanitizer report or abort is a violation, and the processed-or-rejected outcome is compared with the model")
     vlib.conclude_proofs(rep, found)
 
